@@ -94,7 +94,7 @@ func epsCipher() []*epT {
 				x.g(n, func() { _, err := get().Open(nil, nonce, in, aeadAAD); ok = err == nil })
 				return
 			}})
-		n2 := v.name + ".Open[additional data]"
+		n2 := v.name + ".Open[additional-data]"
 		eps = append(eps, &epT{name: n2, small: true, pairLimit: -1,
 			seeds: []seedT{S("aead-aad", func() []byte { return aeadAAD })},
 			call: func(x *cx, in []byte) (ok bool) {
